@@ -5,7 +5,7 @@
 (* and the globals a session works with, against Lifecycle.                *)
 (* Events: proc (new process) / start cfg debug flush works ret running thr seq discard / stop running thr / cap c *)
 (***************************************************************************)
-EXTENDS Lifecycle, Json, IOUtils, TLC
+EXTENDS Lifecycle, Bytes, Json, IOUtils, TLC
 
 VARIABLE l
 tlv == <<running, handles, threads, badjoins, glob, sess, l>>
@@ -18,12 +18,26 @@ Count(th, v) == Cardinality({i \in DOMAIN th : th[i] = v})
 ThrOk(o) == /\ o.created = Len(threads') /\ o.joined = Count(threads', "joined") /\ o.live = Count(threads', "live")
             /\ o.stale = badjoins'
 
+(* a start that fails may already have switched track outputs on (the configuration error is noticed after the boards
+   were read and the interface answered): the library stops again before it returns, so for every node that was sent
+   MSG_CS_SET_STATE(GO) during the call the LAST state it was sent is OFF *)
+CsSetState == 98
+SafeAfterFailedStart(w) ==
+    IF w = <<>> THEN TRUE
+    ELSE /\ WireWellFormed(w)
+         /\ LET F == Flatten(WirePackets(w))
+                ms == [i \in 1..Len(F) |-> ParseMsg(F[i])]
+                cs == SelectSeq(ms, LAMBDA m : m.ty = CsSetState /\ Len(m.data) >= 1)
+            IN \A i \in 1..Len(cs) : cs[i].data[1] = 3 =>
+                  \E j \in (i + 1)..Len(cs) : /\ cs[j].addr = cs[i].addr /\ cs[j].data[1] = 0
+                                               /\ \A k \in (j + 1)..Len(cs) : cs[k].addr # cs[i].addr
 TProc == IsEv("proc") /\ running' = FALSE /\ handles' = [rx |-> 0, af |-> 0, hb |-> 0] /\ threads' = << >> /\ badjoins' = 0 /\ glob' = Glob0 /\ sess' = 0
 TStart == /\ IsEv("start")
           /\ Start(Ev.cfg, Ev.debug, Ev.flush, Ev.works, Ev.ret)
           /\ Ev.running = running'
           /\ ThrOk(Ev.thr)
           /\ running' => (Ev.seq = glob'.seqOn /\ Ev.discard = glob'.discard)
+          /\ Ev.ret = 1 => SafeAfterFailedStart(Ev.w)
 TStartSerial == /\ IsEv("startserial")
                 /\ StartSerial(Ev.dev, Ev.cfg, Ev.ret)
                 /\ Ev.running = running'
